@@ -132,6 +132,14 @@ pub fn dump_case(idx: u64, items: &[Item], opt: u64, flags: Value) -> Value {
         feed(&mut w, items, &writer::basic::Cli { verbose: 0, color: Coloring::Never });
         buf.text()
     });
+    // the terminal reporter as `Basic::stdout()` builds it: with the summary at the end
+    let summarized = guarded(|| {
+        use cucumber::WriterExt as _;
+        let buf = SharedBuf::default();
+        let mut w = writer::Basic::new::<TW>(buf.clone(), Coloring::Never, verbosity).summarized();
+        feed(&mut w, items, &writer::basic::Cli { verbose: 0, color: Coloring::Never });
+        buf.text()
+    });
     let libtest = guarded(|| {
         let buf = SharedBuf::default();
         let mut w = writer::Libtest::<TW, SharedBuf>::new(buf.clone());
@@ -162,5 +170,6 @@ pub fn dump_case(idx: u64, items: &[Item], opt: u64, flags: Value) -> Value {
         "flags": flags,
         "facts": facts(&norm),
         "basic": basic, "libtest": libtest, "json": jsonr, "junit": junit,
+        "summarized": summarized, "expected_summary": crate::oracles_stream::expected_summary(items),
     })
 }
